@@ -26,6 +26,7 @@ func propC20() Property {
 			{ID: "C20-R5", Desc: "HeartBtInt adoption guard", Min: 1, Run: c20R5},
 			{ID: "C20-R6", Desc: "the recovery state's Timeout keeps the recovery state (also inside the pending wrapper)", Min: 3, Run: c20R6},
 			{ID: "C20-R7", Desc: "a failed keep-alive send ends the session", Min: 2, Run: c20R7},
+			{ID: "C20-R11", Desc: "a TestRequest is answered only after the too-high comparison", Min: 1, Run: c20R11},
 			{ID: "C20-R10", Desc: "every inbound frame re-arms the peer timer", Min: 1, Run: c20R10},
 			{ID: "C20-R9", Desc: "the answer to a TestRequest does not depend on PossDupFlag", Min: 1, Run: c20R9},
 			{ID: "C20-R8", Desc: "timer events are delivered with a blocking send", Min: 2, Run: c20R8},
